@@ -153,7 +153,7 @@ func InModule(fn *ssa.Function) bool {
 	}
 	if pkg == nil {
 		// synthetic wrappers (method-expression thunks, bound methods) of module methods
-		return fn.Synthetic != "" && strings.Contains(fn.String(), ModulePath+".")
+		return fn.Synthetic != "" && (strings.Contains(fn.String(), ModulePath+".") || strings.Contains(fn.String(), ModulePath+"/"))
 	}
 	return pkg.Pkg.Path() == ModulePath || strings.HasPrefix(pkg.Pkg.Path(), ModulePath+"/")
 }
